@@ -230,13 +230,31 @@ theorem producer_skips_blocked (set : List Raw) (wf : WF set) (ts : List TxV)
 accepted only if none of the *submitted* transactions (the transaction, every member of a group, a delayed
 transaction) touches a blacklisted account. The added restriction compared with the full statement: for a
 proxy-exec submission this speaks about the outer transaction only. -/
-theorem pool_rejects_always_partial (set : List Raw) (wf : WF set) (ts : List TxV) (base : PoolRes)
-    (h : poolSubmit set ts true base = .accepted) : ∀ t ∈ ts, ¬ Touches set t := by
-  intro t ht htouch
-  have hc : (core set t).isSome = true := (core_iff_touches set wf t).mpr htouch
-  have hany : ts.any (fun t => (core set t).isSome) = true := by
-    simp only [List.any_eq_true]; exact ⟨t, ht, hc⟩
-  simp [poolSubmit, hany] at h
+theorem pool_rejects_always_partial (set : List Raw) (wf : WF set) (ts : List (TxV × Bool)) (base : PoolRes)
+    (h : poolSubmit set ts true base = .accepted) : ∀ p ∈ ts, ¬ Touches set p.1 := by
+  have key : ∀ l : List (TxV × Bool), (∃ p ∈ l, Touches set p.1) → ∃ r, poolMembers set l = some r ∧ r ≠ .accepted := by
+    intro l
+    induction l with
+    | nil => rintro ⟨p, hp, _⟩; simp at hp
+    | cons q rest ih =>
+      obtain ⟨t, a⟩ := q
+      rintro ⟨p, hp, ht⟩
+      simp only [poolMembers]
+      cases a with
+      | false => exact ⟨.other, by simp, by simp⟩
+      | true =>
+        simp only [Bool.not_true, Bool.false_eq_true, if_false]
+        by_cases hc : (core set t).isSome = true
+        · exact ⟨.blocked, by simp [hc], by simp⟩
+        · simp only [hc, Bool.false_eq_true, if_false]
+          apply ih
+          rcases List.mem_cons.mp hp with e | e
+          · subst e; exact absurd ((core_iff_touches set wf t).mpr ht) hc
+          · exact ⟨p, e, ht⟩
+  intro p hp htouch
+  obtain ⟨r, hr, hne⟩ := key ts ⟨p, hp, htouch⟩
+  simp [poolSubmit, hr] at h
+  exact hne h
 
 theorem delay_rejects_always (set : List Raw) (wf : WF set) (t : TxV) (h : delayTakes set t = true) :
     ¬ Touches set t := by
@@ -248,7 +266,7 @@ theorem delay_rejects_always (set : List Raw) (wf : WF set) (t : TxV) (h : delay
 carries no blacklisted account in the outer NOR in the inner transaction. -/
 def PoolFullStatement : Prop :=
   ∀ (set : List Raw) (_ : WF set) (outer inner : TxV) (base : PoolRes),
-    poolSubmit set [outer] true base = .accepted → ¬ Touches set outer ∧ ¬ Touches set inner
+    poolSubmit set [(outer, true)] true base = .accepted → ¬ Touches set outer ∧ ¬ Touches set inner
 
 /-- **the full pool statement is false of the code**: the pool looks at the submitted (outer) transaction only; a
 proxy-exec transaction whose inner recipient is blacklisted is accepted (and only rejected later, by the executor,
